@@ -7,6 +7,8 @@ B  every path of bounded depth (exhaustive) + simulated long behaviours are repl
    RegisteredDecoys (real transports' identifiers, real default lifetimes, time by back-dating).
 C  seeded random histories over a larger alphabet are recorded from the real object and validated by
    Trace_Registry (all invariants evaluated on every observed state); one corrupted trace must be rejected.
+E  PostSweepExact at scale: 24 000 (thorough 120 000) registrations over hundreds of phantoms in every age / use class, one sweep: exactly the
+   unexpired ones are left - objects, expiry records, lookups (the instance whose sweep stops after n removals violates PostSweepExact).
 D  one sweep races with six connection handlers over 400 valid, unused, 11-minute-old registrations (no gates): at
    quiescence every registration must be in one of the two serial outcomes - marked used and kept, or removed and
    never announced as used (NeverRemovedEarly / PostSweepExact under real concurrency inside the locked methods).
@@ -163,6 +165,33 @@ def run(ctx):
         raise vlib.InfraError("sweep/mark stress is vacuous (one side always wins): %s" % ssum[0])
     ctx.stage("D", **{k: v for k, v in ssum[0].items() if k != "kind"})
 
+    # ---- E: PostSweepExact at scale: a population as large as a registration burst (tens of thousands over hundreds of phantoms, in every
+    # age / use class), ONE sweep - exactly the unexpired ones are left (TU = 10 min, TA = 6 h: Registry.tla's Expired)
+    rc = ctx.tlc(sdir, "Registry.tla", "MC_Registry_sweepcap.cfg", timeout=300, count=False)
+    if rc["inv"] != "PostSweepExact":
+        raise vlib.InfraError("the instance whose sweep stops after a fixed number of removals should violate PostSweepExact, got %s" % rc["inv"])
+    scp = os.path.join(ctx.scratch, "scale.ndjson")
+    ctx.go_test(PKG, FILES, "lib", "^TestVerifRegistryScale$", env={"VERIF_OUT": scp, "VERIF_SCALE": 120000 if thorough else 24000}, timeout=900)
+    srows2 = ctx.read_results(scp)
+    ssum2 = [x for x in srows2 if x.get("kind") == "summary"]
+    if not ssum2:
+        raise vlib.InfraError("scale driver did not finish")
+    left = 0
+    for x in srows2:
+        if x.get("kind") != "class":
+            continue
+        expired = x["age_s"] > (21600 if x["used"] else 600)      # Expired(t) of Registry.tla with the real lifetimes
+        want = 0 if expired else x["before"]
+        left += want
+        for f in ("tracked", "records") + (("matching",) if x["valid"] else ()):
+            if x[f] != want:
+                ctx.violation("scale:PostSweepExact:%s:%s" % (x["class"], f),
+                              "after ONE sweep over a population of %d registrations, %d of the %d in class %s (%s) are still %s - expected %d"
+                              % (ssum2[0]["population"], x[f], x["before"], x["class"], "expired" if expired else "not expired", f, want), x)
+    if ssum2[0]["expiry_records_left"] != left:
+        ctx.violation("scale:PostSweepExact:records-left", "%d expiry records are left after the sweep, %d registrations are unexpired"
+                      % (ssum2[0]["expiry_records_left"], left), ssum2[0])
+    ctx.stage("E", nonvacuity="SweepCap = 1 violates PostSweepExact", **{k: v for k, v in ssum2[0].items() if k != "kind"})
     ctx.cov["evaluations"] = summ["behaviours"] + len(traces)
     ctx.cov["distinct_nontrivial"] = nontrivial
     ctx.cov["exhaustive"] = False
